@@ -54,7 +54,7 @@ package subscriptions
 // C19: an update at topic t starting from node n touches exactly the entry with key K = kext(key(n), t): f is applied once to
 // its data; every other node keeps its data; nodes disappear only if they hold nothing; new nodes other than K hold nothing.
 //@ func (*Node).update(topic format.Topic, f func([]byte) []byte)
-//@   requires n != nil && n.#tree != nil
+//@   requires n != nil && n.#tree != nil && f != nil
 //@   requires st_wf0(n.#tree)
 //@   requires st_wf1(n.#tree)
 //@   requires st_wf2(n.#tree)
@@ -96,7 +96,7 @@ package subscriptions
 
 // C01 (soundness): walk reports only nodes of this tree whose key matches the topic, each time with that node's data
 //@ func (*Node).walk(topic format.Topic, iterator NodeIterator)
-//@   requires this != nil && this.#tree != nil && st_wf(this.#tree)
+//@   requires this != nil && this.#tree != nil && st_wf(this.#tree) && iterator != nil
 //@   ensures forall r *Node :: {#hits[r]} #hits[r] >= old(#hits)[r]
 //@   ensures forall r *Node :: {#hits[r]} #hits[r] > old(#hits)[r] ==> st_in(this.#tree, r) && msub(this.#key, r.#key, string(topic), topic == nil)
 // C01 (completeness, one level at a time): at the end of the topic the node itself and its "#" child are reported; otherwise
@@ -113,6 +113,7 @@ package subscriptions
 //@ ghost-after (*Node).walk call (*Node).walk
 //@   set #walked := update(#walked, n, #walked[n] + 1)
 //@ loop (*Node).walk#1
+//@   invariant iterator != nil
 //@   invariant forall r *Node :: {#walked[r]} #walked[r] >= old(#walked)[r]
 //@   invariant forall kk string :: {seen(kk)} seen(kk) && kk == "#" ==> #hits[this.Children[kk]] >= old(#hits)[this.Children[kk]] + 1
 //@   invariant forall kk string :: {seen(kk)} seen(kk) && kk != "#" && (kk == "+" || kk == token) ==> #walked[this.Children[kk]] >= old(#walked)[this.Children[kk]] + 1
@@ -134,7 +135,7 @@ package subscriptions
 // iterate reports exactly the non-empty entries of the subtree, each at most once (soundness and the bound, for the whole
 // subtree); completeness one level at a time: the node itself if it holds data, and every child is iterated.
 //@ func (*Node).iterate(iterator NodeIterator)
-//@   requires this != nil && this.#tree != nil && st_wf(this.#tree)
+//@   requires this != nil && this.#tree != nil && st_wf(this.#tree) && iterator != nil
 //@   ensures forall r *Node :: {#hits[r]} #hits[r] >= old(#hits)[r] && #hits[r] <= old(#hits)[r] + 1
 //@   ensures forall r *Node :: {#hits[r]} #hits[r] > old(#hits)[r] ==> st_in(this.#tree, r) && len(r.Data) > 0 && kpre(this.#key, r.#key)
 //@   ensures len(this.Data) > 0 ==> #hits[this] == old(#hits)[this] + 1
@@ -142,6 +143,7 @@ package subscriptions
 //@   ensures forall r *Node :: {#walked[r]} #walked[r] >= old(#walked)[r]
 //@   modifies *, except(allfields(*Node)), except(allmaps(Node.Children)), except(allfields(*tree)), except(heap(K_sync_RWMutex)), except(heap(E_byte)), newrows(bytes), #hits, #iterCalls, #walked
 //@ loop (*Node).iterate#1
+//@   invariant iterator != nil
 //@   invariant this != nil && this.#tree != nil && st_wf(this.#tree)
 //@   invariant forall r *Node :: {#walked[r]} #walked[r] >= old(#walked)[r]
 //@   invariant forall kk string :: {seen(kk)} seen(kk) ==> #walked[this.Children[kk]] >= old(#walked)[this.Children[kk]] + 1
@@ -189,7 +191,7 @@ package subscriptions
 
 // C19 at the interface: Upsert at pattern p touches exactly the entry with key kext(kroot, p)
 //@ func (*tree).Upsert(pattern []byte, f func([]byte) []byte) (err error)
-//@   requires tree_inv(t) && unlocked(t.mtx)
+//@   requires tree_inv(t) && unlocked(t.mtx) && f != nil
 //@   ensures tree_inv(t) && err == nil && t.root == old(t.root)
 //@   ensures #upsertCalls == old(#upsertCalls) + 1
 //@   ensures forall r *Node :: {r.#tree} old(st_in(t.root, r)) && r.#key != kext(kroot(), string(pattern), pattern == nil) ==> r.Data == old(r.Data)
@@ -206,7 +208,7 @@ package subscriptions
 
 // C01 at the interface: Walk reports exactly nodes whose key matches the topic (soundness), and the root-level completeness
 //@ func (*tree).Walk(topic []byte, iterator NodeIterator)
-//@   requires tree_inv(this) && unlocked(this.mtx)
+//@   requires tree_inv(this) && unlocked(this.mtx) && iterator != nil
 //@   ensures forall r *Node :: {#hits[r]} #hits[r] >= old(#hits)[r]
 //@   ensures forall r *Node :: {#hits[r]} #hits[r] > old(#hits)[r] ==> st_in(this.root, r) && msub(kroot(), r.#key, string(topic), topic == nil)
 //@   ensures #walked[this.root] >= old(#walked)[this.root] + 1
@@ -218,7 +220,7 @@ package subscriptions
 //@   set #walked := update(#walked, this.root, #walked[this.root] + 1)
 
 //@ func (*tree).Iterate(iterator NodeIterator)
-//@   requires tree_inv(this) && unlocked(this.mtx)
+//@   requires tree_inv(this) && unlocked(this.mtx) && iterator != nil
 //@   ensures forall r *Node :: {#hits[r]} #hits[r] >= old(#hits)[r] && #hits[r] <= old(#hits)[r] + 1
 //@   ensures forall r *Node :: {#hits[r]} #hits[r] > old(#hits)[r] ==> st_in(this.root, r) && len(r.Data) > 0
 //@   ensures #walked[this.root] >= old(#walked)[this.root] + 1
